@@ -265,7 +265,10 @@ func specInScope(stack []scope, n int, s scope) bool {
 //
 //@ func (*Parser).evaluateParams
 //@   loop @"for" invariant[C06] never-nil: params != nil
+//@   loop @"for" invariant[C07] no-parameter-name-twice-so-far: forall(a, 0, len(params), forall(b, 0, a, params[b].name != params[a].name))
+//@   loop @"range params" invariant[C07] the-new-name-differs-from-the-earlier-ones: forall(b, 0, rangeindex + 1, params[b].name != name)
 //@   ensures[C06] never-nil-on-success: err == nil ==> result0 != nil
+//@   ensures[C07] no-parameter-name-twice: err == nil ==> forall(a, 0, len(result0), forall(b, 0, a, result0[b].name != result0[a].name))
 //
 //@ func (*Parser).evaluateFunctionDefinition
 //@   callsite addVariables requires[C07,C09] parameters-are-never-globals: !arg2
@@ -364,7 +367,10 @@ func specInScope(stack []scope, n int, s scope) bool {
 //
 //@ func (*Parser).evaluateVarDefinition
 //@   ensures[C07,C10] every-declared-name-is-checked-against-the-visible-ones: err == nil ==> calls(evaluateVarNames) == 1 && calls(checkNewVariableNameToken) == len(res(evaluateVarNames, 0, 0)) && forall(k, 0, len(res(evaluateVarNames, 0, 0)), arg(checkNewVariableNameToken, k, 1) == res(evaluateVarNames, 0, 0)[k])
-//@   loop @"range nameTokens#1" invariant[C07,C10] names-checked-so-far: calls(checkNewVariableNameToken) == rangeindex + 1 && forall(k, 0, rangeindex + 1, arg(checkNewVariableNameToken, k, 1) == nameTokens[k])
+//@   loop @"range nameTokens#1" invariant[C07] no-name-twice-so-far: forall(a, 0, rangeindex + 1, forall(b, 0, a, nameTokens[b].value != nameTokens[a].value))
+//@   loop @"range nameTokens[:i]" invariant[C07] the-name-differs-from-the-earlier-ones: forall(b, 0, rangeindex + 1, nameTokens[b].value != nameToken.value)
+//@   callsite checkNewVariableNameToken requires[C07] no-name-is-declared-twice-in-one-definition: forall(a, 0, len(nameTokens), forall(b, 0, a, nameTokens[b].value != nameTokens[a].value))
+//@   loop @"range nameTokens#2" invariant[C07,C10] names-checked-so-far: calls(checkNewVariableNameToken) == rangeindex + 1 && forall(k, 0, rangeindex + 1, arg(checkNewVariableNameToken, k, 1) == nameTokens[k])
 //@   loop @"range values" invariant[C06] types-of-the-values-in-order: len(valuesTypes) == rangeindex + 1 && forall(k, 0, len(valuesTypes), valuesTypes[k] == values[k].ValueType())
 //@   loop @"range variables#1" invariant[C06] variables-so-far-take-a-value-of-their-type: len(variables) == len(valuesTypes) && forall(k, 0, rangeindex + 1, variables[k].valueType.Equals(valuesTypes[k]))
 //@   ensures[C06] each-value-has-the-type-of-its-variable: err == nil && isType(result0, "parser.VariableDefinition") && calls(evaluateValues) == 1 ==> len(asType(result0, "parser.VariableDefinition").variables) == len(asType(result0, "parser.VariableDefinition").values) && forall(k, 0, len(asType(result0, "parser.VariableDefinition").values), asType(result0, "parser.VariableDefinition").variables[k].valueType.Equals(asType(result0, "parser.VariableDefinition").values[k].ValueType()))
@@ -401,6 +407,7 @@ func specInScope(stack []scope, n int, s scope) bool {
 //@ func (*Parser).evaluateFor
 //@   ensures[C07,C10] both-range-variables-are-checked-against-the-visible-names: err == nil && old(p.peekAt(1)).tokenType == lexer.IDENTIFIER && old(p.peekAt(2)).tokenType == lexer.COMMA ==> calls(checkNewVariableNameToken) >= 2 && arg(checkNewVariableNameToken, 0, 1) == old(p.peekAt(1)) && arg(checkNewVariableNameToken, 1, 1) == old(p.peekAt(3))
 //@   callsite addVariables requires[C07,C09] loop-variables-are-never-globals: !arg2
+//@   callsite addVariables requires[C07] index-and-value-variable-have-different-names: hasNamedVar ==> valueVarName != indexVarName
 //@   ensures[C01] plain-assignment-accepted-as-init: err != nil && calls(evaluateStatement) == 1 && res(evaluateStatement, 0, 1) == nil && calls(evaluateExpression) == 0 && calls(evaluateBlock) == 0 && res(evaluateStatement, 0, 0).StatementType() == STATEMENT_TYPE_VAR_ASSIGNMENT ==> hasPrefix(errmsg(err), "expected \";\"")
 //@   ensures[C06] condition-boolean: err == nil ==> isType(result0, "parser.For") && specTyped(asType(result0, "parser.For").condition) && asType(result0, "parser.For").condition.ValueType().IsBool()
 //
